@@ -104,7 +104,7 @@ Proof.
 Qed.
 
 Section Rename.
-Variables (old new : str).
+Variables (old new : str) (f : nat).
 Hypotheses (Ho : canon old) (Hn : canon new) (Hor : old <> s_slash) (Hnr : new <> s_slash)
   (Hne : old <> new) (Hb1 : below old new = false) (Hb2 : below new old = false).
 
@@ -131,7 +131,8 @@ Record RInv (removes : list str) (s : mst) (todo : list nat) : Prop := mkRInv {
   ri_nodup : NoDup todo;
   ri_sorted : dsorted (fun r => depth (node_name s r)) todo;
   ri_pnew : exists pp ppn, lookup s (par new) = Some pp /\ get_node s pp = Some ppn /\ ndir ppn = true;
-  ri_rm : NoDup removes /\ ~ In old removes
+  ri_rm : NoDup removes /\ ~ In old removes;
+  ri_f : lookup s new = Some f /\ node_name s f = new
 }.
 
 Lemma disj x : canon x -> atbelow old x -> atbelow new x -> False.
@@ -302,5 +303,270 @@ Proof.
   - destruct (ri_rm _ _ _ R) as [Hnd Hno]. split.
     + apply nodup_snoc; [exact Hnd|]. intros Y. apply HSk. now right.
     + rewrite in_app_iff. cbn. intros [Y|[Y|[]]]; [contradiction|]. rewrite Y in Hbk. rewrite below_irrefl in Hbk. discriminate.
+  - destruct (ri_f _ _ _ R) as [Hfl Hfn]. split.
+    + rewrite L4. assert (E : beqb k2 new = false).
+      { apply beqb_neq. intros E. rewrite E in Hbn2. rewrite below_irrefl in Hbn2. discriminate. }
+      now rewrite E.
+    + rewrite N4. assert (E : Nat.eqb d f = false).
+      { apply Nat.eqb_neq. intros ->. rewrite Hfn in Hname. rewrite <- Hname in Hbk. congruence. }
+      now rewrite E.
+Qed.
+
+(* renameDescendants: the loop *)
+Lemma rename_descs_loop : forall todo removes s,
+  RInv removes s todo ->
+  exists s' removes', rename_descs old new s todo removes = Some (s', true, removes') /\ RInv removes' s' [].
+Proof.
+  induction todo as [|d todo IH]; intros removes s R.
+  - exists s, removes. split; [reflexivity | exact R].
+  - destruct (rename_one_step removes s d todo R) as (s1 & Hone & R1).
+    destruct (IH _ _ R1) as (s' & removes' & Hloop & R').
+    exists s', removes'. split; [|exact R']. cbn [rename_descs]. rewrite Hone. exact Hloop.
+Qed.
+
+(* ---------- the deferred deletes ---------- *)
+Definition inl (ks : list str) : kset := fun k => In k ks.
+
+Record DInv (ks : list str) (s : mst) : Prop := mkDInv {
+  di_g : GWF (inl ks) Dnew (inl ks) s;
+  di_S : forall k0, In k0 ks -> atbelow old k0 /\ exists r, lookup s k0 = Some r /\ node_name s r = rwk k0;
+  di_all : forall k r, lookup s k = Some r -> atbelow old k -> In k ks;
+  di_pnew : exists pp ppn, lookup s (par new) = Some pp /\ get_node s pp = Some ppn /\ ndir ppn = true;
+  di_f : lookup s new = Some f /\ node_name s f = new
+}.
+
+Lemma rw_neq k0 : canon k0 -> atbelow old k0 -> rwk k0 <> k0.
+Proof.
+  intros Hc Hat E. apply (disj k0 Hc Hat). rewrite <- E. destruct Hat as [->|Hat]; [left; apply rw_self|].
+  right. apply (rw_canon old new k0 Ho Hn Hnr Hc Hat).
+Qed.
+
+Lemma del_step k ks s : NoDup (k :: ks) -> DInv (k :: ks) s -> DInv ks (del_key s k).
+Proof.
+  intros Hnd [G HS Hall Hpn Hf]. inversion Hnd as [|? ? Hnik Hnd']; subst.
+  destruct (HS k (or_introl eq_refl)) as (Hatk & rk & Hrk & Hnk).
+  assert (Hck : canon k) by (apply (g_canon _ _ _ _ G k rk Hrk)).
+  assert (Hkr : k <> s_slash). { destruct Hatk as [->|Hb]; [exact Hor | apply (below_not_root old k Ho Hb)]. }
+  assert (Hparnew : par new <> k).
+  { intros E. assert (Hb : below k new = true).
+    { rewrite <- E. apply below_par; auto. now rewrite E. }
+    destruct Hatk as [->|Hb']; [congruence|]. rewrite (below_trans _ _ _ Hb' Hb) in Hb1. discriminate. }
+  assert (L : forall x, x <> k -> lookup (del_key s k) x = lookup s x).
+  { intros x Hx. rewrite lookup_del_key. assert (E : beqb k x = false) by (apply beqb_neq; congruence). now rewrite E. }
+  split.
+  - eapply GWF_ext; [| | |eapply (GWF_del _ _ _ s k G)]; auto.
+    + intros x. unfold ksub, inl. cbn. split; [intros [[Y|Y] Y2]; [congruence | exact Y] | intros Y; split; [now right | congruence]].
+    + intros x [[Y|Y] Y2]; [congruence | exact Y].
+    + now left.
+    + intros k' r' Hne' Hl' E. destruct (g_node _ _ _ _ G _ _ Hl') as (n & Hgn & Hln & _).
+      rewrite <- (node_name_get s r' n Hgn), E, Hrk in Hln. inversion Hln; subst r'.
+      rewrite Hnk in E. revert E. now apply rw_neq.
+    + intros k' r' Hl' Hne' Hr' Hnm' HP' Ep. apply HP'. apply (Hall k' r' Hl'). right.
+      apply below_step; auto; [apply (g_canon _ _ _ _ G k' r' Hl') | rewrite Ep; destruct Hatk; auto].
+    + intros name -> E. contradiction.
+  - intros k0 Hk0. destruct (HS k0 (or_intror Hk0)) as (Hat & r & Hr & Hrn). split; [exact Hat|].
+    exists r. split; [rewrite L; [exact Hr | congruence] | exact Hrn].
+  - intros x r Hl Hat. rewrite lookup_del_key in Hl. destruct (beqb k x) eqn:E; [discriminate|]. apply beqb_neq in E.
+    destruct (Hall x r Hl Hat) as [Y|Y]; [congruence | exact Y].
+  - destruct Hpn as (pp & ppn & Hpp & Hppn & Hppd). exists pp, ppn. rewrite L by exact Hparnew. auto.
+  - destruct Hf as [Hfl Hfn]. split; [|exact Hfn]. rewrite L; [exact Hfl|].
+    intros E. destruct Hatk as [Y|Y]; [congruence|]. rewrite <- E in Y. congruence.
+Qed.
+
+Lemma del_all : forall ks s, NoDup ks -> DInv ks s -> DInv [] (fold_left del_key ks s).
+Proof.
+  induction ks as [|k ks IH]; intros s Hnd D; [exact D|]. cbn [fold_left]. apply IH; [now inversion Hnd | now apply del_step].
+Qed.
+
+Lemma mst_eta s : mkM (mdata s) (mheap s) (mhandles s) (mclock s) = s.
+Proof. now destruct s. Qed.
+
+Lemma fold_del_key ks : forall s, set_data s (fold_left (fun d k => alist_del k d) ks (mdata s)) = fold_left del_key ks s.
+Proof.
+  induction ks as [|k ks IH]; intros s; cbn [fold_left]; [apply mst_eta|].
+  rewrite <- IH. reflexivity.
+Qed.
+
+(* the state after the loop is ready for the deletes *)
+Lemma RInv_DInv removes s : RInv removes s [] -> DInv (removes ++ [old]) s.
+Proof.
+  intros R. assert (E : forall x, In x (removes ++ [old]) <-> Sof removes x).
+  { intros x. unfold Sof. rewrite in_app_iff. cbn. intuition congruence. }
+  split.
+  - eapply GWF_ext; [| | |exact (ri_g _ _ _ R)]; [intros x; symmetry; apply E | auto | intros x; apply E].
+  - intros k0 Hk0. apply (ri_S _ _ _ R). now apply E.
+  - intros k r Hl [->|Hb]; [apply E; now left|]. apply E. destruct (Sof_dec removes k) as [Y|N]; [exact Y|].
+    destruct (ri_todo _ _ _ R k r Hl Hb N).
+  - exact (ri_pnew _ _ _ R).
+  - exact (ri_f _ _ _ R).
+Qed.
+
+(* the body of Rename once the source has been found and differs from the target *)
+Definition rename_body (s : mst) : mst * res :=
+  match unregister s old with
+  | None => (s, RPanic)
+  | Some (s1, false) => (s1, RErr (E KNotExist))
+  | Some (s1, true) =>
+    let s3 := move_key s1 f new in
+    match rename_descs old new s3 (find_descendants s3 old) [] with
+    | None => (s3, RPanic)
+    | Some (s4, false, _) => (s4, RErr (E KNotExist))
+    | Some (s4, true, removes) =>
+      let s5 := set_data s4 (fold_left (fun d k => alist_del k d) removes (mdata s4)) in
+      let s6 := set_data s5 (alist_del old (mdata s5)) in
+      (reg s6 f 0, ROk)
+    end
+  end.
+
+Lemma Sof_nil x : Sof [] x <-> x = old.
+Proof. unfold Sof. cbn. tauto. Qed.
+
+Lemma rename_core s :
+  WF s -> lookup s old = Some f ->
+  (forall k r, lookup s k = Some r -> below new k = false) ->
+  (exists pp ppn, lookup s (par new) = Some pp /\ get_node s pp = Some ppn /\ ndir ppn = true) ->
+  snd (rename_body s) = ROk /\ WF (fst (rename_body s)).
+Proof.
+  intros W Hl Hfree Hpnew.
+  pose proof (WF_fresh s old f W Hl) as Hname.
+  destruct (GWF_unregister kempty kempty kempty s old f W Hl Hname Hor) as (q0 & qn0 & Hq0 & Hqn0 & Hqd0 & Hun & G1); [intros [] | intros [] |].
+  set (s1 := upd_node s q0 (del_kid old)) in *.
+  assert (L1 : forall x, lookup s1 x = lookup s x) by (intros; apply lookup_upd).
+  assert (N1 : forall x, node_name s1 x = node_name s x).
+  { intros x. unfold s1. rewrite node_name_upd. destruct (Nat.eqb q0 x) eqn:E; [|reflexivity].
+    apply Nat.eqb_eq in E. subst x. unfold node_name. now rewrite Hqn0. }
+  assert (G3 : GWF (kadd kempty old) (kadd kempty new) (kadd kempty old) (move_key s1 f new)).
+  { apply (GWF_move _ _ _ s1 old f new); auto.
+    - now rewrite L1.
+    - now rewrite N1.
+    - now right.
+    - intros [[]|Y]; congruence.
+    - intros k' r' Hl' Hr' Ep. rewrite L1 in Hl'. assert (Hb : below new k' = true).
+      { rewrite <- Ep. apply below_par; [apply (g_canon _ _ _ _ W k' r' Hl') | exact Hr' | now rewrite Ep]. }
+      rewrite (Hfree k' r' Hl') in Hb. discriminate.
+    - intros k' r' Hl' Hne' E. rewrite L1 in Hl'. rewrite N1, (WF_fresh s k' r' W Hl') in E. contradiction. }
+  set (s3 := move_key s1 f new) in *.
+  destruct (g_node _ _ _ _ W _ _ Hl) as (fn & Hfn & _).
+  assert (Hfn1 : exists fn1, get_node s1 f = Some fn1).
+  { destruct (shape_upd s q0 (del_kid old) f fn (fun m => conj eq_refl eq_refl) Hfn) as (n' & Hn' & _). now exists n'. }
+  destruct Hfn1 as (fn1 & Hfn1).
+  assert (L3 : forall x, lookup s3 x = if beqb new x then Some f else lookup s x).
+  { intros x. unfold s3. rewrite lookup_move_key, L1. reflexivity. }
+  assert (N3 : forall r, node_name s3 r = if Nat.eqb f r then new else node_name s r).
+  { intros r. unfold s3. rewrite node_name_move, Hfn1, N1. reflexivity. }
+  assert (Eon : beqb new old = false) by (apply beqb_neq; congruence).
+  assert (R0 : RInv [] s3 (find_descendants s3 old)).
+  { assert (Hperm : Permutation (find_descendants s3 old)
+                      (map snd (filter (fun kv => prefixb (old ++ s_slash) (fst kv)) (mdata s3)))).
+    { unfold find_descendants. apply (sort_perm (fun r => depth (node_name s3 r))). }
+    assert (Hmem : forall r, In r (find_descendants s3 old) <-> exists k, lookup s3 k = Some r /\ below old k = true).
+    { intros r. split.
+      - intros Hin. apply (Permutation_in _ Hperm) in Hin. apply in_map_iff in Hin as ([k r'] & E & Hin). cbn in E. subst r'.
+        apply filter_In in Hin as [Hin Hb]. exists k. split; [|exact Hb]. apply in_aget; [apply (g_nodup _ _ _ _ G3) | exact Hin].
+      - intros (k & Hk & Hb). apply (Permutation_in _ (Permutation_sym Hperm)). apply in_map_iff. exists (k, r). split; [reflexivity|].
+        apply filter_In. split; [now apply aget_in | exact Hb]. }
+    split.
+    - eapply GWF_ext; [| | |exact G3].
+      + intros x. rewrite Sof_nil. unfold kadd, kempty. tauto.
+      + intros x [[]|Y]. exact Y.
+      + intros x [[]|Y]. now apply Sof_nil.
+    - intros k0 Hk0. apply Sof_nil in Hk0. subst k0. split; [now left|]. exists f. split.
+      + rewrite L3, Eon. exact Hl.
+      + rewrite N3, Nat.eqb_refl. symmetry. apply rw_self.
+    - intros k0 Hk0 Hk0o. apply Sof_nil in Hk0. contradiction.
+    - intros k' r Hk' Hb. rewrite L3 in Hk'. destruct (beqb new k') eqn:E.
+      + apply beqb_eq in E. subst k'. rewrite below_irrefl in Hb. discriminate.
+      + rewrite (Hfree k' r Hk') in Hb. discriminate.
+    - intros k r Hk Hb _. apply Hmem. now exists k.
+    - intros r Hin. apply Hmem in Hin as (k & Hk & Hb). exists k. split; [exact Hk|]. split; [exact Hb|].
+      intros Y. apply Sof_nil in Y. subst k. rewrite below_irrefl in Hb. discriminate.
+    - apply (Permutation_NoDup (Permutation_sym Hperm)). apply nodup_map_snd.
+      + intros k1 k2 r H1 H2. apply filter_In in H1 as [H1 B1], H2 as [H2 B2]. cbn [fst] in B1, B2.
+        apply (in_aget _ _ _ (g_nodup _ _ _ _ G3)) in H1, H2.
+        apply (GWF_inj _ _ _ s3 k1 k2 r G3); auto.
+        * intros [[]|Y]. subst k1. change (prefixb (old ++ s_slash) old) with (below old old) in B1. rewrite below_irrefl in B1. discriminate.
+        * intros [[]|Y]. subst k2. change (prefixb (old ++ s_slash) old) with (below old old) in B2. rewrite below_irrefl in B2. discriminate.
+      + apply nodup_filter. apply (g_nodup _ _ _ _ G3).
+    - unfold find_descendants. apply (sort_sorted (fun r => depth (node_name s3 r))).
+    - destruct Hpnew as (pp & ppn & Hpp & Hppn & Hppd).
+      destruct (shape_upd s q0 (del_kid old) pp ppn (fun m => conj eq_refl eq_refl) Hppn) as (n1 & Hn1 & A1 & _).
+      destruct (get_move_shape s1 f new pp n1 Hn1) as (n3 & Hn3 & B1 & _).
+      exists pp, n3. split; [|split; [exact Hn3 | congruence]].
+      rewrite L3. assert (E : beqb new (par new) = false) by (apply beqb_neq; intros E; symmetry in E; revert E; now apply par_neq).
+      now rewrite E.
+    - split; [constructor | intros []].
+    - split; [rewrite L3, beqb_refl; reflexivity | rewrite N3, Nat.eqb_refl; reflexivity]. }
+  destruct (rename_descs_loop _ _ _ R0) as (s4 & removes & Hloop & R4).
+  pose proof (RInv_DInv _ _ R4) as D4.
+  destruct (ri_rm _ _ _ R4) as [Hnd Hno].
+  assert (Hnd' : NoDup (removes ++ [old])) by (now apply nodup_snoc).
+  pose proof (del_all _ _ Hnd' D4) as D6. rewrite fold_left_app in D6. cbn [fold_left] in D6.
+  set (s5 := fold_left del_key removes s4) in *. set (s6 := del_key s5 old) in *.
+  assert (Ebody : rename_body s = (reg s6 f 0, ROk)).
+  { unfold rename_body. rewrite Hun. cbv zeta. fold s3. rewrite Hloop. rewrite (fold_del_key removes s4). reflexivity. }
+  rewrite Ebody. cbn [fst snd]. split; [reflexivity|].
+  destruct D6 as [G6 _ _ Hpn6 [Hfl6 Hfn6]]. destruct Hpn6 as (pp & ppn & Hpp & Hppn & Hppd).
+  destruct (g_node _ _ _ _ G6 _ _ Hpp) as (ppn' & Hppn' & _ & Hpph & _). rewrite Hppn in Hppn'. inversion Hppn'; subst ppn'.
+  unfold reg. rewrite (register_present _ s6 f 0 new pp ppn Hfn6 Hn Hpp Hppn) by congruence.
+  eapply GWF_to_WF; [| | |eapply (GWF_add_kid _ _ _ s6 new f pp ppn G6); eauto].
+  - intros x [[] _].
+  - intros x [Y1 Y2]. contradiction.
+  - intros x [].
 Qed.
 End Rename.
+
+Lemma m_rename_body s p q f :
+  lookup s (normalize_path p) = Some f -> beqb (normalize_path p) (normalize_path q) = false ->
+  m_rename s p q = rename_body (normalize_path p) (normalize_path q) f s.
+Proof. intros Hl Hne. unfold m_rename, rename_body. rewrite Hl, Hne. reflexivity. Qed.
+
+(* what the precondition of Rename gives when the source exists and differs from the target *)
+Lemma rename_pre s old new f :
+  WF s -> canon old -> canon new -> lookup s old = Some f -> old <> new ->
+  match kind_at s new with
+  | None => is_dir_at s (par new)
+  | Some d2 => negb (match kind_at s old with Some b => b | None => true end) && negb d2
+  end = true ->
+  new <> s_slash /\ below new old = false /\
+  (forall k r, lookup s k = Some r -> below new k = false) /\
+  (exists pp ppn, lookup s (par new) = Some pp /\ get_node s pp = Some ppn /\ ndir ppn = true).
+Proof.
+  intros W Ho Hn Hl Hne Hpre.
+  assert (Hnodir : forall rn nn, lookup s new = Some rn -> get_node s rn = Some nn -> ndir nn = true -> False).
+  { intros rn nn Hrn Hnn Hd. unfold kind_at in Hpre at 1. rewrite Hrn, Hnn, Hd in Hpre.
+    rewrite andb_false_r in Hpre. discriminate. }
+  assert (Hfree : forall k r, lookup s k = Some r -> below new k = false).
+  { intros k r Hk. destruct (below new k) eqn:Hb; [|reflexivity]. exfalso.
+    destruct (anc_live s k r new W Hk Hn Hb) as (rn & nn & Hrn & Hnn & Hd). eapply Hnodir; eauto. }
+  assert (Hnr : new <> s_slash).
+  { intros ->. destruct (g_root _ _ _ _ W) as (r0 & n0 & Hl0 & Hn0 & _ & Hd0). eapply Hnodir; eauto. }
+  split; [exact Hnr|]. split; [eapply Hfree; eauto|]. split; [exact Hfree|].
+  destruct (kind_at s new) as [d2|] eqn:Hk.
+  - apply kind_at_some in Hk as (rn & nn & Hrn & Hnn & Hd).
+    destruct (g_par _ _ _ _ W new rn Hrn (WF_fresh s new rn W Hrn) Hnr) as (pp & ppn & Hpp & Hppn & Hppd & _); [intros [] | intros [] |].
+    now exists pp, ppn.
+  - now apply is_dir_at_true.
+Qed.
+
+Lemma WF_rename s p q : WF s -> wf_op s (Rename p q) = true ->
+  WF (fst (m_rename s p q)) /\ (lookup s (normalize_path p) <> None -> snd (m_rename s p q) = ROk).
+Proof.
+  intros W Hwf. cbn [wf_op] in Hwf. apply andb_true_iff in Hwf as [Hn Hwf]. apply andb_true_iff in Hn as [Hn Hroot].
+  apply andb_true_iff in Hn as [Hnp Hnq].
+  set (old := normalize_path p) in *. set (new := normalize_path q) in *.
+  assert (Ho : canon old) by now apply canon_normalize. assert (Hnc : canon new) by now apply canon_normalize.
+  apply negb_true_iff, beqb_neq in Hroot.
+  destruct (lookup s old) as [f|] eqn:Hl.
+  2:{ unfold m_rename. fold old. rewrite Hl. split; [exact W | congruence]. }
+  destruct (beqb old new) eqn:Eon.
+  { unfold m_rename. fold old new. rewrite Hl, Eon. split; [exact W | reflexivity]. }
+  rewrite (m_rename_body s p q f Hl Eon). fold old new.
+  apply beqb_neq in Eon.
+  destruct (GWF_lookup_node _ _ _ _ _ _ W Hl) as (fn & Hfn).
+  assert (Hko : kind_at s old = Some (ndir fn)) by (unfold kind_at; now rewrite Hl, Hfn).
+  rewrite Hko in Hwf. cbn [orb] in Hwf. apply andb_true_iff in Hwf as [Hb1 Hpre]. apply negb_true_iff in Hb1.
+  destruct (rename_pre s old new f W Ho Hnc Hl Eon) as (Hnr & Hb2 & Hfree & Hpnew).
+  { rewrite Hko. exact Hpre. }
+  destruct (rename_core old new f Ho Hnc Hroot Hnr Eon Hb1 Hb2 s W Hl Hfree Hpnew) as [Hres W'].
+  split; [exact W' | intros _; exact Hres].
+Qed.
